@@ -315,6 +315,43 @@ theorem wrong_length_bytes_rejected {p : Prims} {cfg : Config} {autosort embedde
   have : (sdkSize cfg k == b.length) = false := by simpa using hlen
   simp only [coerceAtom, if_true, ruleOf, hfind, hmap, hov, sdkBytesOf, this, Bool.false_eq_true, if_false]
 
+/-! ### a flags string names a set -/
+
+/-- **Naming a flag twice changes nothing** (`functools.reduce(operator.or_, …)` is a set union, not a sum): the value of a
+    sequence of flag names in which `p` occurs again equals the value without the extra occurrence. (`toOption`: an
+    unknown name makes both sides fail, possibly reporting different names.) -/
+theorem flags_union_idempotent (ty : String) (table : List (String × Int)) (p : String) (ps : List String) (h : p ∈ ps) :
+    (flagsByName ty table (p :: ps)).toOption = (flagsByName ty table ps).toOption := by
+  rw [flagsByName_toOption, flagsByName_toOption, flagsValue_mem table p ps h]
+
+/-- … **and the order of the names does not matter** -/
+theorem flags_union_order_independent (ty : String) (table : List (String × Int)) {l l' : List String} (h : l.Perm l') :
+    (flagsByName ty table l).toOption = (flagsByName ty table l').toOption := by
+  rw [flagsByName_toOption, flagsByName_toOption, flagsValue_perm table h]
+
+/-- **A flags string denotes the set of names it contains**: two strings for a flags member whose blank-separated parts
+    are the same set (any order, any multiplicity; `none` included or not makes no difference to the bits, see
+    `flags_none_is_neutral`) are converted to the same value, or both refused. The parts are those of `str.split(' ')`:
+    two blanks in a row, or a blank at either end, produce an empty part, which is no flag name. -/
+theorem flags_string_denotes_set (ty : String) (ms : List (String × Int)) {s s' : String}
+    (h : ∀ p, p ∈ splitBlank s ↔ p ∈ splitBlank s') :
+    (enumByName ty true ms s).toOption = (enumByName ty true ms s').toOption := by
+  rw [enumByName_flags_toOption, enumByName_flags_toOption, flagsValue_set _ h]
+
+/-- `none` contributes no bit -/
+theorem flags_none_is_neutral (ty : String) (ms : List (String × Int)) (ps : List String) :
+    (flagsByName ty (nameTable true ms) ("none" :: ps)).toOption = (flagsByName ty (nameTable true ms) ps).toOption := by
+  rw [flagsByName_toOption, flagsByName_toOption]
+  apply flagsValue_none_name
+  simp [nameTable, lookupLast]
+
+/-- the bits of the value are exactly the bits of the named flags -/
+theorem flags_value_bits (ty : String) (table : List (String × Int)) (l : List String) (r : Nat)
+    (h : flagsByName ty table l = .ok r) (k : Nat) :
+    r.testBit k = true ↔ ∃ p ∈ l, ∃ v, lookupLast table p = some v ∧ v.toNat.testBit k = true := by
+  apply flagsValue_bits table l r
+  rw [← flagsByName_toOption ty, h]; rfl
+
 /-! ### type-rule overrides (`TransactionFactory(network, type_rule_overrides)`) -/
 
 /-- **An override takes precedence over the built-in rule**, for every descriptor value (lists and dicts included):
@@ -749,6 +786,8 @@ def symbolAccepted : List Bool :=
     (match member? r "signer_public_key" with | some (.bytes b) => b.length == 32 && b.take 2 == [0x00, 0x11] | _ => false),
     mosaicsOf r == [9, 3],
     intMember mosaicDefinition "flags" 9,
+    intMember (create examplePrims cfg false true [("type", .str "mosaic_definition_transaction_v1"),
+      ("flags", .str "transferable none transferable supply_mutable transferable")]) "flags" 3,
     (match member? mosaicDefinition "id" with | some (.int i) => i != 1 | _ => false),
     (match mosaicDefinition with | .ok (.struct "EmbeddedMosaicDefinitionTransactionV1" _) => true | _ => false),
     !rejected (create examplePrims cfg true false [("type", .str "account_key_link_transaction_v1"), ("link_action", .str "link")]) ]
